@@ -75,3 +75,69 @@ for _metric in ("fractional", "wape", "meansquare"):
         call_stubs={"_get_fitscore_func": (lambda it, metric: it.ghost_env["FITFUNC"])},
         requires=(["all(y_[i] >= 0 for i in range(%d))" % N] if _metric == "wape" else []),
         ensures=_ens, raises={}, raises_props=["C15"], defined_props=["C15"], metric=_metric, replay_prepare=_prepare)
+
+
+# ---- calibration._update_parset (C15: "adjusted values ..."; the proposal of the calibration optimiser reaches exactly the factor it names):
+# the body of the loop over the adjustables, for one adjustable (name, population) and a parameter set with two ordinary parameters
+# and one transfer.  'all' sets the all-population factor, a population name sets that population's factor, a transfer name
+# `<transfer>_from_<population>` sets the factor of the transfer out of that population; nothing else is touched.
+def _env_update_parset(kind):
+    def make(it):
+        from pyvc.interp import PyObjV
+        from pyvc.core import LArr
+        from pyvc import source
+
+        pm = source.load("parameters")
+        mk = lambda n: PyObjV("Parameter", pm, {"name": n, "meta_y_factor": z3.Real("meta_" + n), "y_factor": {"adults": z3.Real("y_%s_adults" % n), "children": z3.Real("y_%s_children" % n)}})
+        p, q, tr = mk("p"), mk("q"), mk("age")
+        parset = PyObjV("ParameterSet", pm, {"name": "ps", "pars": {"p": p, "q": q}, "transfers": {"age": {"children": tr}}})
+        ys = [z3.Real("proposal_%d" % k) for k in range(2)]
+        x = {"meta": ("p", "all"), "meta_upper": ("p", "ALL"), "population": ("p", "adults"), "transfer": ("age_from_children", "adults")}[kind]
+        return {"parset": parset, "y_factors": LArr(2, it._list_reader(ys)), "pars_to_adjust": [("q", "children"), x], "i": 1, "x": x, "P": p, "Q": q, "TR": tr, "ys": ys,
+                "OLD": {n: (o.fields["meta_y_factor"], o.fields["y_factor"]["adults"], o.fields["y_factor"]["children"]) for n, o in (("p", p), ("q", q), ("age", tr))}}
+
+    return make
+
+
+def _same(n, obj, skip=None):
+    parts = []
+    if skip != "meta":
+        parts.append("%s.meta_y_factor == OLD['%s'][0]" % (obj, n))
+    if skip != "adults":
+        parts.append("%s.y_factor['adults'] == OLD['%s'][1]" % (obj, n))
+    parts.append("%s.y_factor['children'] == OLD['%s'][2]" % (obj, n))
+    return " and ".join(parts)
+
+
+for _kind, _target, _clause in (
+        ("meta", "the_all_population_factor", "P.meta_y_factor == ys[1] and " + _same("p", "P", "meta") + " and " + _same("q", "Q") + " and " + _same("age", "TR")),
+        ("meta_upper", "the_all_population_factor_whatever_the_case_of_all", "P.meta_y_factor == ys[1] and " + _same("p", "P", "meta") + " and " + _same("q", "Q") + " and " + _same("age", "TR")),
+        ("population", "that_populations_factor", "P.y_factor['adults'] == ys[1] and " + _same("p", "P", "adults") + " and " + _same("q", "Q") + " and " + _same("age", "TR")),
+        ("transfer", "the_factor_of_the_transfer_out_of_the_named_population", "TR.y_factor['adults'] == ys[1] and " + _same("age", "TR", "adults") + " and " + _same("p", "P") + " and " + _same("q", "Q"))):
+    CONTRACTS["calibration:_update_parset#%s" % _kind] = dict(
+        schema=schema, fragment={"iter": "enumerate(pars_to_adjust)"}, make_env=_env_update_parset(_kind),
+        ensures=[("C15.the_proposed_value_reaches_%s_and_nothing_else" % _target, _clause)],
+        defined_props=["C15"])
+
+
+# ---- the starting point and the bounds of calibrate(): body of the loop that fills x0 / xmin / xmax for one adjustable -- the starting
+# value is read from the SAME factor _update_parset writes for that adjustable, and its bounds are appended at the same position
+def _env_bounds(kind):
+    inner = _env_update_parset(kind)
+
+    def make(it):
+        env = inner(it)
+        lo, hi = z3.Real("scale_min"), z3.Real("scale_max")
+        x = env["x"] + (lo, hi)
+        env.update({"x": x, "pars_to_adjust": [("q", "children", 0.1, 10.0), x], "x0": [z3.Real("x0_0")], "xmin": [0.1], "xmax": [10.0], "lo": lo, "hi": hi})
+        return env
+
+    return make
+
+
+for _kind, _read in (("meta", "OLD['p'][0]"), ("meta_upper", "OLD['p'][0]"), ("population", "OLD['p'][1]"), ("transfer", "OLD['age'][1]")):
+    CONTRACTS["calibration:calibrate#start_and_bounds_%s" % _kind] = dict(
+        schema=schema, fragment={"iter": "enumerate(pars_to_adjust)", "body_contains": "xmin.append"}, make_env=_env_bounds(_kind),
+        ensures=[("C15.the_starting_value_is_the_factor_the_adjustable_names", "len(x0) == 2 and x0[1] == %s" % _read),
+                 ("C15.its_bounds_sit_at_the_same_position", "len(xmin) == 2 and len(xmax) == 2 and xmin[1] == lo and xmax[1] == hi")],
+        defined_props=["C15"])
